@@ -218,10 +218,11 @@ Proof. vm_compute. auto. Qed.
 
 (* dump(skip_default=True) by a parser with a required subcommand raises: there is no text to parse back *)
 Lemma skip_default_subcommand_witness :
-  top_class id_yl true None yaml_skipdef ex_leaves = 13%N /\
-  roundtrip_top id_yl no_plain some_text some_text dumper_table loader_table true None yaml_skipdef ex_leaves = None /\
-  top_class id_yl false None yaml_skipdef ex_leaves = 0%N.
-Proof. vm_compute. auto. Qed.
+  dump_crashes_pinned true yaml_skipdef = true /\
+  dump_crashes true yaml_skipdef = false /\
+  top_class id_yl true None yaml_skipdef ex_leaves = 0%N /\
+  roundtrip_top id_yl no_plain some_text some_text dumper_table loader_table true None yaml_skipdef ex_leaves <> None.
+Proof. vm_compute. repeat split; auto; discriminate. Qed.
 
 (* save() (skip_none) of `fit` whose only option x: Optional[int] = None holds None: the text is `fit: {}` and the re-parse
    does not select the subcommand *)
